@@ -84,11 +84,13 @@ class TrackerHistory(Contract):
     functional = False
     pure = False
     no_crosscheck = True
+    max_paths = 40000       # greedy matching of 3 x 2 symbolic costs: every order of the edges
     dims = ()
     rand_ranges = {"instance_score_threshold": (0.0, 0.6)}
-    cases = _cases(2, 2) + _cases(3, 2)
-    thorough_cases = cases + _cases(2, 2, w=2) + _cases(3, 2, w=2) + tuple(c for c in _cases(4, 2, w=2) if "fixed_window" in c)
-    bounded = ("histories of up to 3 frames (greedy: 2) (quick) / 4 frames with window 2 (thorough) from the initial tracker state, up to 2 detections per frame, window sizes 1 (quick) and 2; "
+    # plus frames with 3 detections followed by fewer (more live tracks than detections, >= 2 detections)
+    cases = _cases(2, 2) + _cases(3, 2) + tuple("%s|%s|w1|%s" % (cand, match, h) for cand, match in CONFIGS for h in ("3-2", "3-1", "2-3") if not (match == "greedy" and h != "3-1"))
+    thorough_cases = cases + tuple("%s|greedy|w1|3-2" % cand for cand in ("fixed_window", "local_queues")) + _cases(2, 2, w=2) + _cases(3, 2, w=2) + tuple(c for c in _cases(4, 2, w=2) if "fixed_window" in c)
+    bounded = ("histories of up to 3 frames (greedy: 2) (quick) / 4 frames with window 2 (thorough) from the initial tracker state, up to 2 detections per frame (plus the 3-2, 3-1, 2-3 histories), window sizes 1 (quick) and 2; "
                "feature and scoring functions abstracted to arbitrary finite values; reported as a bounded stand-in, not an unbounded proof",)
 
     def inputs(self, c, case):
